@@ -277,6 +277,9 @@ pub fn c13(spec: &WorldSpec, ex: &Exec) -> Option<Viol> {
     let own = compute_owners(ex);
     let mut solo = spec.clone();
     solo.cfg.max_probes = 1;
+    // the solo replay ends when the projected history is exhausted, not at the product world's
+    // horizon (cross-subscription actions are extra top-level events of the solo history)
+    solo.cfg.e = 10_000;
     let nprobes = ex.probes.iter().filter(|p| p.subscribed).count();
     let mut best: Option<Viol> = None;
     for x in 0..nprobes as u8 {
